@@ -409,11 +409,4 @@ func runC16(w *World, r *Report) {
 	r.Check(nTypeOf >= 3, "C16.reflect-zero", "reflect.TypeOf call sites inspected", eo.Pos(), fmt.Sprintf("%d sites", nTypeOf), "the rule no longer sees the TypeOf calls of the option type checks")
 }
 
-func exitPos(ex loopExit) token.Pos {
-	if p := blockPos(ex.from); p != token.NoPos {
-		return p
-	}
-	return ex.loop.pos
-}
-
 var optsForwardExceptions = map[string]string{}
